@@ -106,6 +106,8 @@ def check_roundtrip(lx: LayoutExtractor, rep, prefix='C01'):
         p1 = list(aprob) + list(lx.size_problems.get(c.name, []))
         for k in c.mro()[1:]:
             p1 += lx.size_problems.get(k.name, [])
+        # a special-case encoder path (taken for a stated number of items) must emit what the general path emits
+        p1 += lx.special_path_problems(c)[1]
         for e, d in pairs:
             if e[0] == 'f':
                 if (e[1], e[2], e[3]) != (d[1], d[2], d[3]):
@@ -327,10 +329,13 @@ def _bname(b) -> str:
 
 # --------------------------------------------------------------------------- C02
 
-def check_wire(lx: LayoutExtractor, rep, prefix='C02'):
-    R = lambda r: '%s.%s' % (prefix, r)
+def check_wire(lx: LayoutExtractor, rep, prefix='C02', only=None, rule_map=None):
+    """``only``: restrict to these classes (and skip the converse-direction part); ``rule_map``: rename rule suffixes"""
+    R = lambda r: '%s.%s' % (prefix, (rule_map or {}).get(r, r))
     classes = {c.name: c for c in lx.concrete_classes()}
     for name, spec in OR.LAYOUTS.items():
+        if only is not None and name not in only:
+            continue
         if name not in classes:
             rep.bad(R('L1'), 'pdu:%s:type' % name, '', 'codec class %s required by the standard layout table is missing' % name)
             continue
@@ -406,6 +411,10 @@ def check_wire(lx: LayoutExtractor, rep, prefix='C02'):
                     p2.append('variable part: encoder writes %s self.%s, standard: %s %s' % (ek, ea, kind, attr))
         if i != len(enc):
             p2.append('encoder emits %d more element(s) than the standard layout' % (len(enc) - i))
+        n_sp, sp = lx.special_path_problems(c)
+        p2.extend(sp)
+        if n_sp:
+            rep.notes.setdefault('special_encoder_paths', []).append('%s: %d' % (c.name, n_sp))
         rep.check(not p2, R('L2'), key(lay, 'field-order-width'), loc,
                   'order, widths, byte order and carried attribute of %d elements as in %s' % (len(spec['fields']), spec['clause']),
                   '; '.join(p2))
@@ -427,6 +436,8 @@ def check_wire(lx: LayoutExtractor, rep, prefix='C02'):
         rep.check(not p3, R('L3'), key(lay, 'length-field'), loc,
                   'length field governs exactly the bytes after it (%s); total_length() = bytes emitted' %
                   (lens[0][2] if lens else '-'), '; '.join(p3))
+    if only is not None:
+        return
     # L4: converse direction, structural part
     ui = lx.layout(classes['UserInformationItem'])
     loops = [d for d in ui.dec if d[0] == 'v' and d[1] == 'loop']
